@@ -485,6 +485,12 @@ func c04Apply(buf []byte, m C04Mut, srcs []*c04Built) (out []byte, tainted bool,
 			}
 			return spliceBlock(buf, b.off, end, comp, us, ec), true, "recrc-payload-flip"
 		case 2: // entry stream edited (length fields), recompressed, checksum valid
+			// (a preamble forged by an earlier mutation of the chain can declare gigabytes; snappy.Decode
+			// allocates the declared length before it looks at the stream, and no valid stream expands
+			// more than ~32x — do not let the HARNESS allocate that)
+			if dl, derr := snappy.DecodedLen(comp); derr != nil || dl > 128*len(comp)+1024 {
+				return buf, false, "recrc-none"
+			}
 			raw, err := snappy.Decode(nil, comp)
 			if err != nil || len(raw) == 0 {
 				return buf, false, "recrc-none"
